@@ -21,6 +21,30 @@ theorem amd64_entry (from_ to : BitVec 64) (m : X86.Mach) :
       some { m with rip := m.mem64 to, rdx := to } := by
   simp [Gen.Amd64.jmpToFunctionValue, X86.exec, bytes64]
 
+/-- patch.go `replaceFunc` → jumpdata.go:53, the call site: the divert sequence is emitted for `replacementInAddr`.  The
+    obligation of the call site, made explicit: that argument is the address `fv` of the replacement's *function value*
+    (the object whose first word is the code address).  Then the diverted function continues at the replacement's code
+    with the closure context register pointing at the function value.  (The site lane reads `fv` from the variable
+    itself, for every entry point of the package and every argument form it accepts.) -/
+theorem entry_site (origin inAddr fv code : BitVec 64) (m : X86.Mach) (hwire : inAddr = fv) (hfv : m.mem64 fv = code) :
+    X86.exec (Gen.Amd64.jmpToFunctionValue origin inAddr) { m with rip := origin } =
+      some { m with rip := code, rdx := fv } := by
+  subst hwire; subst hfv
+  exact amd64_entry origin inAddr m
+
+/-- …and the obligation is needed: handed the address `pvar` of a *variable holding* the function value (what the data
+    word of `reflect.Indirect(reflect.ValueOf(&fn))`, or of `reflect.ValueOf(&fn)`, is) the same sequence continues at
+    `fv` — the function-value object, data — with the context register pointing at the variable. -/
+theorem entry_site_wrong_arg (origin pvar fv : BitVec 64) (m : X86.Mach) (hvar : m.mem64 pvar = fv) :
+    X86.exec (Gen.Amd64.jmpToFunctionValue origin pvar) { m with rip := origin } =
+      some { m with rip := fv, rdx := pvar } := by
+  subst hvar
+  exact amd64_entry origin pvar m
+
+/-- non-vacuity: a closure object at 0xc000014820 whose code is at 0x616d60, held in a variable at 0xc00006a148 -/
+example : let m : X86.Mach := { rip := 0, rdx := 0, mem64 := fun a => if a = 0xc000014820#64 then 0x616d60#64 else 0xc000014820#64 }
+    m.mem64 0xc000014820#64 = 0x616d60#64 ∧ m.mem64 0xc00006a148#64 = 0xc000014820#64 := by decide
+
 theorem amd64_entry_shape (from_ to : BitVec 64) :
     (Gen.Amd64.jmpToFunctionValue from_ to).length = 13 ∧
     Gen.Amd64.checkAlreadyPatch (Gen.Amd64.jmpToFunctionValue from_ to) = true ∧
